@@ -346,8 +346,11 @@ def write_evidence(plan, tier, seed, t0, violations, machinery, known_hit):
     samples = [o.to_json() for o in (disch_p[:3] + disch_b[:3] + [o for o in obs if o.status != "discharged"][:4])]
     scan = scan_assumptions(plan)
     cov = {
-        "obligations": len(proved),
+        # the proof-level claim of this run covers exactly the obligations discharged in this run: an obligation without a
+        # verdict (timeout, lost anchor) is listed under `undecided` and counted in `obligations_attempted`, never as proved
+        "obligations": len(disch_p),
         "discharged": len(disch_p),
+        "obligations_attempted": len(proved),
         "bounded_obligations": len(bounded),
         "bounded_discharged": len(disch_b),
         "checker_cmd": "verus <unit>.rs --output-json --time ; cargo kani -p <mirror crate> --harness <filter> -Z function-contracts -Z stubbing (driver: bin/check %s --tier %s)" % (plan.prop, tier),
